@@ -1033,6 +1033,27 @@ gen_spec(Choices& c, CaseLog& log, GeoFixture& fix, GenOptions const& opt)
         if (!ps.empty())
             s.events.push_back(ps);
     }
+    // "tie" class: make the fixed step limiter EXACTLY the navigator's own
+    // distance to the first boundary of the first primary, so that a physics
+    // step limit coincides with a boundary (both code paths must agree)
+    if (!s.events.empty() && c.boolean(0.15))
+    {
+        auto const& p0 = s.events[0][0];
+        auto tv = fix.track();
+        tv = GeoTrackInitializer{Real3{p0.pos[0], p0.pos[1], p0.pos[2]},
+                                 Real3{p0.dir[0], p0.dir[1], p0.dir[2]}};
+        if (!tv.failed() && !tv.is_outside())
+        {
+            auto pr = tv.find_next_step();
+            if (pr.boundary && pr.distance > 0 && std::isfinite(pr.distance))
+            {
+                int div = int(c.int_in(1, 3));
+                s.fixed_step_limiter = pr.distance / (div == 3 ? 4 : div);
+                log.label("step-limiter-boundary-tie");
+                log.mix(s.fixed_step_limiter);
+            }
+        }
+    }
     return s;
 }
 
